@@ -1,5 +1,5 @@
 #!/usr/bin/env python3
-"""tools/fuzz_diff.py <target> <seconds> [--seed N] [--corpus DIR] [--out FILE]
+"""tools/fuzz_diff.py <target> <seconds> [--seed N] [--corpus DIR] [--out FILE] [--work DIR]
 
 Coverage-guided differential testing (atheris / libFuzzer, tooling venv `python3-vt`) of the hand-written Lean model against
 the Python code it mirrors: libFuzzer mutates byte strings guided by the coverage of the *Python implementation*, every input is
@@ -222,7 +222,8 @@ def main():
     # a dictionary and a few seed inputs: the interesting inputs are structured (keywords, block markers) and the coverage of the Python
     # code cannot lead the mutator to a five-byte marker or to a keyword that `bytes.find` / a dict look-up test in one step
     import tempfile
-    work = tempfile.mkdtemp(prefix="fuzzdiff_")
+    work = args[args.index("--work") + 1] if "--work" in args else tempfile.mkdtemp(prefix="fuzzdiff_")
+    os.makedirs(work, exist_ok=True)
     dict_path = os.path.join(work, "dict.txt")
     seeds = corpus or os.path.join(work, "corpus")
     os.makedirs(seeds, exist_ok=True)
